@@ -240,3 +240,84 @@ Check (C09.C09_decode_encode_zlib_stored_multipass : forall fp o sizes inp bs,
     bw_collect fp o sizes inp = Ok (ids, outs, sum, data)
     /\ inc_from 0 kept /\ (ubuf = 0 <-> o_compress o = false)
     /\ decode bs (zlib_inflate_at bs) = Some (content_of fp o sizes ids outs sum ubuf kept)).
+
+(* ---- bigBed, compressed files ---- *)
+From BT Require Import Model.BigBedWriteZ Proofs.C09BedZFile Proofs.C09BedZWhole Proofs.C09BedZInflate.
+From BT Require Proofs.BedFileZ Proofs.BedFileZThms.
+Check (C09.C09_bb_model_uncompressed : forall compress fp o sizes autosql input, o_compress o = false ->
+  bb_write_z compress fp o sizes autosql input = bb_write fp o sizes autosql input
+  /\ bb_write_multipass_z compress fp o sizes autosql input = bb_write_multipass fp o sizes autosql input).
+Check (C09.C09_bb_decode_encode_compressed : forall compress fp o sizes autosql input bs inflate,
+  bb_write_z compress fp o sizes autosql input = Ok bs -> bed_hyps o sizes input bs ->
+  Forall (fun z => z < W32) (zoom_sizes_single o) ->
+  o_sort_all o = true ->
+  (forall b, compress b <> []) -> (o_compress o = true -> inflate_ok compress bs inflate) ->
+  ubuf_fits_dec o input ->
+  exists fc ids outs kept ubuf,
+    bb_schema autosql = Ok (stored_autosql autosql, fc) /\ bb_collect o sizes input = Ok (ids, outs)
+    /\ incl kept (zoom_sizes_single o) /\ inc_from 0 kept /\ Nlen kept <= 10
+    /\ Forall (level_runs fp o outs) kept
+    /\ (ubuf = 0 <-> o_compress o = false) /\ ubuf < W32
+    /\ decode bs inflate = Some (bed_content_of_z fp o sizes input (stored_autosql autosql) fc ids outs ubuf kept)).
+Check (C09.C09_bb_decode_encode_compressed_multipass : forall compress fp o sizes autosql input bs inflate,
+  bb_write_multipass_z compress fp o sizes autosql input = Ok bs -> bed_hyps o sizes input bs ->
+  manual_u32 o ->
+  o_sort_all o = true ->
+  (forall b, compress b <> []) -> (o_compress o = true -> inflate_ok compress bs inflate) ->
+  ubuf_fits_dec o input ->
+  exists fc ids outs kept ubuf,
+    bb_schema autosql = Ok (stored_autosql autosql, fc) /\ bb_collect o sizes input = Ok (ids, outs)
+    /\ inc_from 0 kept /\ Nlen kept <= 10
+    /\ Forall (level_runs fp o outs) kept
+    /\ (ubuf = 0 <-> o_compress o = false) /\ ubuf < W32
+    /\ decode bs inflate = Some (bed_content_of_z fp o sizes input (stored_autosql autosql) fc ids outs ubuf kept)).
+Check (C09.C09_bb_decode_encode_compressed_lenient : forall compress two_pass fp o sizes autosql input bs inflate,
+  BedFileZThms.bb_write_either_z compress two_pass fp o sizes autosql input = Ok bs -> bed_hyps o sizes input bs ->
+  C08FileQuery.zoom_res_u32 two_pass o ->
+  (forall b, compress b <> []) -> (o_compress o = true -> inflate_ok compress bs inflate) ->
+  ubuf_fits_dec o input ->
+  exists sql fc ids outs kept ubuf,
+    bb_schema autosql = Ok (sql, fc) /\ bb_collect o sizes input = Ok (ids, outs)
+    /\ inc_from 0 kept /\ Nlen kept <= 10
+    /\ (ubuf = 0 <-> o_compress o = false) /\ ubuf < W32
+    /\ decode_lenient bs inflate = Some (bed_content_of_z fp o sizes input sql fc ids outs ubuf kept)).
+Check (C09.C09_bb_buf_size : forall compress fp o sizes autosql input bs,
+  bb_write_z compress fp o sizes autosql input = Ok bs ->
+  exists sql fc ids outs data zooms ubuf nz a1 a2 a3 a4,
+    bb_schema autosql = Ok (sql, fc) /\ bb_collect o sizes input = Ok (ids, outs) /\ bb_data o outs = Ok data
+    /\ mapM (bb_zoom_level fp o outs) (zoom_sizes_single o) = Ok zooms
+    /\ has_at bs 0 (header_bytes BIGBED_MAGIC nz a1 a2 a3 fc fc ASQL_OFFSET a4 ubuf)
+    /\ blocks_bound (o_compress o) ubuf (data ++ flat_map zl_secs zooms)
+    /\ (ubuf = 0 <-> o_compress o = false)
+    /\ (o_compress o = true -> BedFileZ.blocks_fit o input -> 32 * o_ips o < W32 -> ubuf < W32)).
+Check (C09.C09_bb_buf_size_multipass : forall compress fp o sizes autosql input bs,
+  bb_write_multipass_z compress fp o sizes autosql input = Ok bs ->
+  exists sql fc ids outs data zooms ubuf nz a1 a2 a3 a4,
+    bb_schema autosql = Ok (sql, fc) /\ bb_collect o sizes input = Ok (ids, outs) /\ bb_data o outs = Ok data
+    /\ mapM (bb_zoom_level fp o outs)
+         (zoom_sizes_two_pass o (bb_sweep fp outs) (total_zoom_counts (map chrom_out_of outs))
+            (Nlen (data_bytes (map (zsec compress (o_compress o)) data)))) = Ok zooms
+    /\ has_at bs 0 (header_bytes BIGBED_MAGIC nz a1 a2 a3 fc fc ASQL_OFFSET a4 ubuf)
+    /\ blocks_bound (o_compress o) ubuf (data ++ flat_map zl_secs zooms)
+    /\ (ubuf = 0 <-> o_compress o = false)
+    /\ (o_compress o = true -> BedFileZ.blocks_fit o input -> 32 * o_ips o < W32 -> ubuf < W32)).
+Check (C09.C09_bb_blocks_fit_of_bounds : forall o input R, 1 <= o_ips o -> o_ips o * (13 + R) < W32 ->
+  Forall (fun it : bitem => Nlen (e_rest (snd it)) <= R) input -> BedFileZ.blocks_fit o input).
+Check (C09.C09_bb_decode_encode_zlib_stored : forall fp o sizes autosql input bs,
+  bb_write_z zlib_store fp o sizes autosql input = Ok bs -> bed_hyps o sizes input bs ->
+  Forall (fun z => z < W32) (zoom_sizes_single o) -> o_sort_all o = true -> ubuf_fits_dec o input ->
+  exists fc ids outs kept ubuf,
+    bb_schema autosql = Ok (stored_autosql autosql, fc) /\ bb_collect o sizes input = Ok (ids, outs)
+    /\ incl kept (zoom_sizes_single o) /\ inc_from 0 kept /\ Nlen kept <= 10
+    /\ Forall (level_runs fp o outs) kept
+    /\ (ubuf = 0 <-> o_compress o = false) /\ ubuf < W32
+    /\ decode bs (zlib_inflate_at bs) = Some (bed_content_of_z fp o sizes input (stored_autosql autosql) fc ids outs ubuf kept)).
+Check (C09.C09_bb_decode_encode_zlib_stored_multipass : forall fp o sizes autosql input bs,
+  bb_write_multipass_z zlib_store fp o sizes autosql input = Ok bs -> bed_hyps o sizes input bs ->
+  manual_u32 o -> o_sort_all o = true -> ubuf_fits_dec o input ->
+  exists fc ids outs kept ubuf,
+    bb_schema autosql = Ok (stored_autosql autosql, fc) /\ bb_collect o sizes input = Ok (ids, outs)
+    /\ inc_from 0 kept /\ Nlen kept <= 10
+    /\ Forall (level_runs fp o outs) kept
+    /\ (ubuf = 0 <-> o_compress o = false) /\ ubuf < W32
+    /\ decode bs (zlib_inflate_at bs) = Some (bed_content_of_z fp o sizes input (stored_autosql autosql) fc ids outs ubuf kept)).
